@@ -39,6 +39,7 @@ inductive WOp
   | gu (id : Nat) | fu (name : String) | lu | cu (name : String) (id : Nat) | uu (id : Nat) (name : Option String)
   | du (id : Nat) | pu (id : Nat)
   | ga (id : Nat) | ft (tok : String) | la | ca (a : AuthRec) | ua (id : Nat) (active : Bool) | da (id : Nat)
+  | ca2 (a : AuthRec)      -- CreateAuthorization of authorization/middleware_auth.go (AuthedAuthorizationService)
 deriving DecidableEq, Repr
 
 inductive Op
